@@ -59,7 +59,7 @@ class FilePart(Part):
         for B in ([0, 1, 8, 32] if self.tier == "quick" else [0, 1, 2, 7, 8, 9, 16, 24, 31, 32]):
             for nets in (None, ["10.1.0.0/16", "200.1.2.3/32"], "private"):
                 for pref in (None, ["10.0.0.0/8", "12.0.0.0/6"]):
-                    for salt in salts:
+                    for salt in salts + ([""] if self.tier == "quick" and not nets and not pref else []):
                         for nfiles in (1, 3):
                             out.append({"B": B, "networks": nets, "prefixes": pref, "salt": salt,
                                         "nfiles": nfiles, "dump_state": "absent" if (B + nfiles) % 2 else "stale"})
